@@ -384,4 +384,66 @@ theorem ppFuel_total : ∀ (f n : Nat), n < f → n < 2 ^ 1024 → ∃ res, ppFu
       exact ⟨res, hres, ppFuel_spec f m res hres⟩
     · decide
 
+/-- `r` is not an e-th power for any exponent `perfect_power` tries -/
+def NotPow (r : Nat) : Prop := ∀ e ∈ ppExps, ¬ ∃ s, s ^ e = r
+
+theorem ppTry_prim (self : Nat → Option (Option (Nat × Nat)))
+    (hnone : ∀ m, self m = some none → NotPow m)
+    (hsome : ∀ m rr kk, self m = some (some (rr, kk)) → 2 ≤ m → NotPow rr) (n : Nat) (hn : 2 ≤ n) :
+    ∀ (ks : List Nat), (∀ k ∈ ks, 2 ≤ k) → ∀ r k, ppTry self n ks = some (some (r, k)) → NotPow r := by
+  intro ks
+  induction ks with
+  | nil => intro _ r k h; simp [ppTry] at h
+  | cons k0 ks ih =>
+    intro hks r k h
+    have hk2 : 2 ≤ k0 := hks k0 (List.mem_cons_self ..)
+    unfold ppTry at h
+    simp only [] at h
+    by_cases hpow : nthRoot n k0 ^ k0 = n
+    · rw [if_pos hpow] at h
+      generalize nthRoot n k0 = r0 at *
+      have hr0n : r0 ≠ n := by
+        rintro rfl
+        have : r0 ^ 1 < r0 ^ k0 := Nat.pow_lt_pow_right (by omega) (by omega)
+        rw [Nat.pow_one, hpow] at this
+        omega
+      have hr2 : 2 ≤ r0 := by
+        by_contra hlt
+        have : r0 = 0 ∨ r0 = 1 := by omega
+        rcases this with rfl | rfl
+        · rw [Nat.zero_pow (by omega)] at hpow; omega
+        · rw [Nat.one_pow] at hpow; omega
+      rw [if_neg hr0n] at h
+      cases hs : self r0 with
+      | none => rw [hs] at h; simp at h
+      | some o =>
+        rw [hs] at h
+        cases o with
+        | none =>
+          simp only [] at h
+          injection h with h; injection h with h; injection h with h1 h2
+          subst h1
+          exact hnone _ hs
+        | some rk =>
+          obtain ⟨rr, kk⟩ := rk
+          simp only [] at h
+          split_ifs at h
+          injection h with h; injection h with h; injection h with h1 h2
+          subst h1
+          exact hsome _ _ _ hs hr2
+    · rw [if_neg hpow] at h
+      exact ih (fun k hk => hks k (List.mem_cons_of_mem _ hk)) r k h
+
+/-- the root returned by `perfect_power(n)`, `n ≥ 2`, is not itself a perfect power with one of
+the tried exponents: the recursion on the root strips them all. -/
+theorem ppFuel_prim : ∀ (f n r k : Nat), ppFuel f n = some (some (r, k)) → 2 ≤ n → NotPow r := by
+  intro f
+  induction f with
+  | zero => intro n r k h; simp [ppFuel] at h
+  | succ f ih =>
+    intro n r k h hn
+    unfold ppFuel at h
+    exact ppTry_prim (ppFuel f) (fun m hm => ppFuel_spec f m none hm)
+      (fun m rr kk hm h2 => ih m rr kk hm h2) n hn ppExps (by decide) r k h
+
 end Ymq.Arith
